@@ -25,6 +25,8 @@ import sys
 import tempfile
 import time
 
+from vmon.monitors.loop_probe import EXC_KINDS
+
 PROPERTY = "C13"
 LEVEL = "exploration"
 SHARDS = {"quick": 8, "thorough": 16}
@@ -56,6 +58,10 @@ REQUIRE = {
     "programs:zmq:virtual": 300,
     "callbacks_entered": 20000,
     "callbacks_entered_in_later_runs": 2000,
+    **{f"raised:{k}": 10 for k in EXC_KINDS},
+    **{f"raised_not_boom_from:{c}-callback": 50 for c in ("alarm", "watch", "idle")},
+    **{f"raised:{k}:zmq": 3 for k in ("zmq_again", "zmq_eintr", "zmq_eagain", "zmq_other", "zmq_term")},
+    **{f"raised:{k}:{lp}": 3 for k in ("interrupted", "blockingio", "cancelled_asyncio", "keyboardinterrupt", "systemexit", "baseboom", "generatorexit") for lp in ("select", "zmq", "asyncio", "tornado", "twisted")},
     **{f"programs_fd0:{lp}:real": 15 for lp in ("select", "zmq", "asyncio", "tornado", "twisted", "trio")},
     "programs_fd0:select:virtual": 100,
     "programs_fd0:zmq:virtual": 100,
@@ -80,6 +86,9 @@ RULE = (
     "exhaustive over all weak orderings of n_a<=4 alarm-due and n_f<=3 fd-ready events (total <=4 quick / <=5 thorough with every "
     "(actor, action) pair from {remove self, remove sibling (once/twice), re-arm, raise exit, raise Boom, slow}; total 6-7 with "
     "no-op actions in thorough) x ready-report order x idle variants, plus random programs. Real clock: random programs on all six loops. "
+    "Raising callbacks raise ExitMainLoop, the workload's Boom or one of 19 further classes (own BaseException subclass, zmq.error.Again / ZMQError "
+    "EINTR, EAGAIN, EINVAL / ContextTerminated, InterruptedError, BlockingIOError, OSError, asyncio and concurrent.futures CancelledError, StopIteration, "
+    "StopAsyncIteration, GeneratorExit, KeyboardInterrupt, SystemExit, KeyError, RuntimeError, twisted ReactorNotRunning) from alarm, watch and idle callbacks. "
     "In a share of the programs descriptor key 0 IS file descriptor 0 (real clock: the pipe's read end dup2()ed over the worker's stdin; virtual: fd "
     "number 0), so the falsy descriptor / handle value is watched, removed and re-watched on every loop. Programs may call run() two or three times on the same loop object (all loops but twisted): the first run ended by the final alarm, ExitMainLoop or a "
     "Boom raised from an alarm / watch / idle callback, then new alarms / watches / idle callbacks are registered and run() is called again; every clause "
@@ -103,6 +112,10 @@ ASSUMES = [
     "not judged (the statement only fixes them for a pending alarm)",
     "callbacks that still run in the same dispatch batch after another callback raised are observations; only the "
     "consequences named in the statement are judged (which exception leaves run(), whether the loop goes on waiting)",
+    "exception classes: every class is owed the same treatment as Boom (same object out of run(), loop stopped, not raised again by the next run()); "
+    "kept out of the domain: classes other than Boom/ExitMainLoop raised from a TRIO idle callback (trio swallows everything raised inside its Instrument: "
+    "one known finding, not one per class) and StopIteration raised from a trio alarm/watch callback (they run inside coroutines, where PEP 479 turns "
+    "StopIteration into RuntimeError: Python semantics, not urwid's)",
     "TwistedEventLoop is given a fresh EPollReactor per program (reactors are not restartable); glib is not installed and is skipped",
     "zmq virtual poller reproduces pyzmq 27 Poller.poll: float timeout truncated to whole ms by int()",
 ]
@@ -176,6 +189,13 @@ class Tally:
         self.count("api_calls", sum(1 for ev in hist if ev["e"] == "call"))
         if mode == "virtual":
             self.count("virtual_blocks", sum(1 for ev in hist if ev["e"] == "block"))
+        # which exception classes were raised from which kind of callback
+        for ev in hist:
+            if ev["e"] == "exit" and ev["raised"] is not None and ev["raised"].get("kind"):
+                self.count(f"raised:{ev['raised']['kind']}")
+                self.count(f"raised:{ev['raised']['kind']}:{lp}")
+                if ev["raised"]["kind"] != "boom":
+                    self.count(f"raised_not_boom_from:{ev['kind']}-callback")
         # descriptor 0 / falsy handles / removal of the first handle of each kind of a fresh loop
         first_of = {}
         for ev in hist:
